@@ -5,7 +5,9 @@
 //! types), T (argument TYPE classes), E (argument EXPRESSION classes whose type only the parameter fixes),
 //! N (identifier collisions: which names the recursion, the arguments, the locals and the closure carry), K (classes
 //! of DECLARED CAPTURE TYPES), X (execution environments: deep recursion on a big caller stack, several threads, a
-//! moved closure, a lambda inside a lambda - run in child processes).  The shapes of a run are spread over several
+//! moved closure, a lambda inside a lambda - run in child processes), G (argument expressions that create TEMPORARIES
+//! WITH DESTRUCTORS - guards, RefCell borrows, MutexGuards, references into temporary Strings / Vecs, blocks with
+//! locals - with a journal that every activation reads on entry).  The shapes of a run are spread over several
 //! library crates (compiled at the same time) that one binary links and runs.
 
 use serde::{Deserialize, Serialize};
@@ -32,7 +34,10 @@ pub struct Shape {
     /// 'N' identifier collisions (scheme in `naming`): two recursive calls in a loop and one after it, with a
     /// local, a loop variable and calls of `max`, `drop`, `Some` by their plain names in scope;
     /// 'K' the body of 'A' over captures whose declared types come from the classes in `captypes`;
-    /// 'X' a path (one recursive call per activation) driven in the execution environment `env`
+    /// 'X' a path (one recursive call per activation) driven in the execution environment `env`;
+    /// 'G' argument expressions that create TEMPORARIES WITH DESTRUCTORS (classes in `temps`): guards, RefCell
+    /// borrows, MutexGuards, references into temporary Strings / Vecs, blocks with locals; the body reads, on
+    /// entry, a journal of what was created, evaluated and destroyed so far
     pub body: char,
     /// body template 'T' only: the type class of every argument, one letter per argument —
     /// I `i64`, B `bool`, S `&[i64]` (shared slice), M `&mut Vec<i64>` (a mutable reference passed as an
@@ -56,6 +61,10 @@ pub struct Shape {
     /// body template 'X' only: the execution environment the driver calls the closure in (see `ENVS`).
     #[serde(default, skip_serializing_if = "String::is_empty")]
     pub env: String,
+    /// body template 'G' only: the class (see `tclasses`) of the argument EXPRESSION at every argument position
+    /// of the recursive calls, by name: expressions that create temporaries with destructors.
+    #[serde(default, skip_serializing_if = "Vec::is_empty")]
+    pub temps: Vec<String>,
 }
 
 /// The identifier of the helper fn that the macro defines next to the user's body (read off
@@ -105,6 +114,8 @@ impl Shape {
             format!("/captypes={}", self.captypes.join(","))
         } else if !self.env.is_empty() {
             format!("/env={}", self.env)
+        } else if !self.temps.is_empty() {
+            format!("/temps={}", self.temps.join(","))
         } else {
             String::new()
         };
@@ -136,6 +147,9 @@ impl Shape {
         if self.body == 'E' {
             return eclass(&self.exprs[k]).ty;
         }
+        if self.body == 'G' {
+            return tclass(&self.temps[k]).ty.to_string();
+        }
         if self.types.is_empty() {
             return ARG_TYPES[k].to_string();
         }
@@ -154,7 +168,7 @@ impl Shape {
     /// (only the first component of a tuple enters the values the driver passes).
     pub fn grid_arity(&self) -> usize {
         match self.body {
-            'E' => 0,
+            'E' | 'G' => 0,
             'X' if self.env == "deep" => GRID_DEEP,
             'X' => GRID_ENV,
             _ => self.nargs,
@@ -162,7 +176,7 @@ impl Shape {
     }
     /// How many components of a driver tuple the shape uses (for messages and signatures).
     pub fn tuple_arity(&self) -> usize {
-        if self.body == 'E' {
+        if self.body == 'E' || self.body == 'G' {
             1
         } else {
             self.nargs
@@ -598,6 +612,219 @@ pub fn enumerate_expected(thorough: bool) -> Vec<Shape> {
     }
     v
 }
+
+/// A class of argument expressions that create TEMPORARIES WITH DESTRUCTORS (body template 'G').  In the
+/// hand-written `hand(<expression>, …)` a temporary created while an argument is evaluated lives until the end
+/// of the enclosing statement, i.e. through the whole recursive call; what the callee finds on entry (guards
+/// alive, a RefCell borrowed, a Mutex held) and whether a reference into the temporary may be passed at all
+/// depend on it.  Placeholders: `{k}` the tag of the (call site, argument position) — noted in the journal
+/// when the expression is evaluated, so the ORDER of evaluation of the arguments shows as well —, `{x}` an i64
+/// expression, `{m}` the index of a mutex that no other live expression uses.
+#[derive(Clone, Debug)]
+pub struct TClass {
+    pub name: &'static str,
+    /// the parameter's type
+    pub ty: &'static str,
+    /// a value for the driver's call, from the i64 expression `{v}`
+    pub top: &'static str,
+    /// an i64 computed from the argument `{a}`
+    pub digest: &'static str,
+    /// the argument at the even / odd recursive-call sites
+    pub exprs: [&'static str; 2],
+    /// what the temporary is and how the callee can tell that it is alive
+    pub what: &'static str,
+}
+
+const STR_DIGEST: &str = "{a}.bytes().fold({a}.len() as i64, |h, v| h.wrapping_mul(31).wrapping_add(v as i64))";
+const SLICE_DIGEST: &str = "{a}.iter().fold({a}.len() as i64, |h, v| h.wrapping_mul(31).wrapping_add(*v))";
+
+static TCLASSES: &[TClass] = &[
+    TClass {
+        name: "plain",
+        ty: "i64",
+        top: "{v}",
+        digest: "{a}",
+        exprs: ["super::mark({k}, {x})", "super::mark({k}, {x}) ^ 1"],
+        what: "no temporary with a destructor: a by-value expression whose evaluation is noted in the journal (evaluation order of the arguments)",
+    },
+    TClass {
+        name: "guard",
+        ty: "i64",
+        top: "{v}",
+        digest: "{a}",
+        exprs: ["super::Guard::enter({k}, {x}).pass()", "super::Guard::enter({k}, {x}).pass().wrapping_add(super::Guard::enter({k} + 500, 2).pass())"],
+        what: "a guard object (creation and destruction noted in the journal, the number of live guards kept) whose method result is passed by value; at odd sites two guards in one argument",
+    },
+    TClass {
+        name: "guard_ref",
+        ty: "&i64",
+        top: "&({v})",
+        digest: "*{a}",
+        exprs: ["super::Guard::enter({k}, {x}).slot_ref()", "&super::Guard::enter({k}, {x}).slot"],
+        what: "a REFERENCE into a temporary guard object: through a method, and to a field",
+    },
+    TClass {
+        name: "refcell",
+        ty: "i64",
+        top: "{v}",
+        digest: "{a}",
+        exprs: ["({x}).wrapping_add(*super::memo({k}).borrow().last().unwrap())", "super::memo({k}).borrow().iter().sum::<i64>() ^ ({x})"],
+        what: "a shared borrow (`Ref`) of a RefCell, dereferenced and passed by value; the callee sees whether the cell can be borrowed mutably",
+    },
+    TClass {
+        name: "mutex",
+        ty: "i64",
+        top: "{v}",
+        digest: "{a}",
+        exprs: ["({x}) ^ *super::lock({k}, {m}).lock().unwrap_or_else(|e| e.into_inner())", "super::lock({k}, {m}).lock().as_deref().map_or(-1, |g| *g).wrapping_add({x})"],
+        what: "a MutexGuard dereferenced and passed by value (a mutex of its own per depth, site and position: none is locked twice); the callee sees how many mutexes are held",
+    },
+    TClass {
+        name: "string_ref",
+        ty: "&str",
+        top: "({v}).to_string().as_str()",
+        digest: STR_DIGEST,
+        exprs: ["super::mark({k}, {x}).to_string().as_str()", "&super::text({k}, {x})[1..]"],
+        what: "a reference into a temporary String: `.to_string().as_str()` and a sub-slice of a String returned by a call",
+    },
+    TClass {
+        name: "vec_slice",
+        ty: "&[i64]",
+        top: "&[{v}, 1]",
+        digest: SLICE_DIGEST,
+        exprs: ["&vec![super::mark({k}, {x}), 4, 9][1..]", "vec![super::mark({k}, {x}); 2].as_slice()"],
+        what: "a reference into a temporary Vec: `&vec![..][1..]` and `.as_slice()`",
+    },
+    TClass {
+        name: "block",
+        ty: "i64",
+        top: "{v}",
+        digest: "{a}",
+        exprs: ["{ let g = super::Guard::enter({k}, {x}); let t = g.pass(); t.wrapping_add(1) }", "{ let u = {x}; super::Guard::enter({k}, u).pass() }"],
+        what: "a block expression creating locals: a guard that is a local of the block (gone when the block ends), and a guard that is a temporary of the block's tail expression (alive until the enclosing statement ends)",
+    },
+];
+
+pub fn tclasses() -> &'static [TClass] {
+    TCLASSES
+}
+pub fn tclass(name: &str) -> &'static TClass {
+    TCLASSES.iter().find(|c| c.name == name).unwrap_or_else(|| panic!("unknown temporary class {name}"))
+}
+
+/// The temporaries family (body template 'G'), enumerated like the expected-type family: for every capture
+/// pattern and every argument count class vectors by rotation (argument p gets class (p + r) mod number of
+/// classes).  Quick: one rotation per cell, r = index q of the capture pattern, so that over the capture patterns
+/// every class occurs at every argument position of every argument count; the (return type, call syntax)
+/// combination moves on with q and once more with every full turn of the rotation, so that the shapes that share
+/// a (argument count, position, class) cell differ in it.  Thorough: every rotation.
+pub fn enumerate_temporaries(thorough: bool) -> Vec<Shape> {
+    let names: Vec<String> = TCLASSES.iter().map(|c| c.name.to_string()).collect();
+    let nc = names.len();
+    let mut v = vec![];
+    for (q, caps) in capture_patterns().into_iter().enumerate() {
+        for nargs in 1..=4usize {
+            let mut push = |r: usize, combo: usize| {
+                let (ret, trailing) = COMBOS[combo % 4];
+                let temps = (0..nargs).map(|p| names[(p + r) % nc].clone()).collect();
+                v.push(Shape { caps: caps.clone(), nargs, ret, trailing, body: 'G', temps, ..Shape::default() });
+            };
+            if thorough {
+                (0..nc).for_each(|r| push(r, q + nargs + r));
+            } else {
+                push(q % nc, q + q / nc + nargs);
+            }
+        }
+    }
+    v
+}
+
+/// Items next to the shape modules that the temporaries family uses: the journal (per thread) of what the
+/// argument expressions created, evaluated and destroyed, the guard object, a RefCell and mutexes to borrow / lock.
+const JOURNAL_ITEMS: &str = r#"thread_local! {
+    /// (guards alive, order-sensitive digest of the events so far)
+    static JOURNAL: std::cell::Cell<(i64, i64)> = const { std::cell::Cell::new((0, 0)) };
+    static MEMO: &'static std::cell::RefCell<Vec<i64>> = Box::leak(Box::new(std::cell::RefCell::new(vec![3, 5])));
+}
+fn note(alive: i64, event: i64) {
+    JOURNAL.with(|j| {
+        let (a, d) = j.get();
+        j.set((a + alive, d.wrapping_mul(31).wrapping_add(event)));
+    });
+}
+/// An argument expression without a temporary: its evaluation is an event.
+pub fn mark(k: i64, x: i64) -> i64 {
+    note(0, k);
+    x
+}
+/// A String returned by a call (the caller borrows from the temporary).
+pub fn text(k: i64, x: i64) -> String {
+    note(0, k);
+    format!("t{x}")
+}
+/// Creation and destruction are events; `slot` is data that the guard owns.
+pub struct Guard {
+    k: i64,
+    pub slot: i64,
+}
+impl Guard {
+    pub fn enter(k: i64, x: i64) -> Guard {
+        note(1, k);
+        Guard { k, slot: x }
+    }
+    pub fn pass(&self) -> i64 {
+        self.slot
+    }
+    pub fn slot_ref(&self) -> &i64 {
+        &self.slot
+    }
+}
+impl Drop for Guard {
+    fn drop(&mut self) {
+        note(-1, -1000 - self.k);
+    }
+}
+/// The RefCell of this thread (borrowing it is an event).
+pub fn memo(k: i64) -> &'static std::cell::RefCell<Vec<i64>> {
+    note(0, k);
+    MEMO.with(|m| *m)
+}
+const FREE: std::sync::Mutex<i64> = std::sync::Mutex::new(7);
+static LOCKS: [std::sync::Mutex<i64>; 64] = [FREE; 64];
+pub fn lock(k: i64, m: usize) -> &'static std::sync::Mutex<i64> {
+    note(0, k);
+    &LOCKS[m % 64]
+}
+/// What the journal says right now: the guards alive, the events so far in their order, whether the RefCell is
+/// borrowed, how many mutexes are held.
+fn journal_parts() -> (i64, i64, i64, i64) {
+    let (alive, digest) = JOURNAL.with(|j| j.get());
+    let borrowed = MEMO.with(|m| m.try_borrow_mut().is_err()) as i64;
+    let held = LOCKS.iter().filter(|l| matches!(l.try_lock(), Err(std::sync::TryLockError::WouldBlock))).count() as i64;
+    (alive, digest, borrowed, held)
+}
+pub fn journal() -> i64 {
+    let (alive, digest, borrowed, held) = journal_parts();
+    alive.wrapping_mul(1_000_003).wrapping_add(digest) ^ (borrowed << 40) ^ (held << 44)
+}
+static ENTRIES: [AtomicU64; 3] = [AtomicU64::new(0), AtomicU64::new(0), AtomicU64::new(0)];
+/// `journal()` for an activation that has just been entered; counts the entries that found a guard alive, the
+/// RefCell borrowed, a mutex held (the engine demands that each of them happened).
+pub fn on_entry() -> i64 {
+    let (alive, _, borrowed, held) = journal_parts();
+    for (slot, yes) in ENTRIES.iter().zip([alive > 0, borrowed > 0, held > 0]) {
+        slot.fetch_add(yes as u64, Ordering::Relaxed);
+    }
+    journal()
+}
+pub fn entries() -> (u64, u64, u64) {
+    (ENTRIES[0].load(Ordering::Relaxed), ENTRIES[1].load(Ordering::Relaxed), ENTRIES[2].load(Ordering::Relaxed))
+}
+/// Every driver run starts from an empty journal.
+pub fn reset_journal() {
+    JOURNAL.with(|j| j.set((0, 0)));
+}
+"#;
 
 /// Naming schemes of a cell that do not depend on a position.
 pub fn plain_namings() -> Vec<String> {
@@ -1154,16 +1381,23 @@ impl<'a> BodyGen<'a> {
             // records how far apart on the stack the activations of a run are
             s += &format!("{ind}super::probe();\n");
         }
-        let expected = self.sh.body == 'E';
+        let temporaries = self.sh.body == 'G';
+        let expected = self.sh.body == 'E' || temporaries;
         if expected {
             // how many activations are below this one (0 = called by the driver); `_level` counts down on drop
             s += &format!("{ind}let (_level, depth) = super::enter();\n");
+        }
+        if temporaries {
+            // what this activation finds on entry: guards alive, events so far, cell borrowed, mutexes held
+            s += &format!("{ind}let seen: i64 = super::on_entry();\n");
         }
         let typed = self.sh.body == 'T' || expected;
         let acc = &self.names.local;
         // typed arguments enter the key through a digest (an i64 computed from the argument's contents)
         let d = |k: usize| {
-            if expected {
+            if temporaries {
+                format!("v{}", k + 1)
+            } else if expected {
                 format!("({})", eclass(&self.sh.exprs[k]).digest.replace("{a}", &self.names.args[k]))
             } else if typed {
                 format!("({})", self.t_digest(k))
@@ -1181,7 +1415,16 @@ impl<'a> BodyGen<'a> {
         if self.sh.nargs >= 4 {
             key += &format!(".wrapping_add({} as i64)", d(3));
         }
+        if temporaries {
+            // the arguments as integers (the recursive calls compute their arguments from these)
+            for k in 0..self.sh.nargs {
+                s += &format!("{ind}let v{}: i64 = {};\n", k + 1, tclass(&self.sh.temps[k]).digest.replace("{a}", &self.names.args[k]));
+            }
+        }
         s += &format!("{ind}let key: i64 = {key};\n{ind}let mut {acc}: i64 = key;\n");
+        if temporaries {
+            s += &format!("{ind}{acc} = {acc}.wrapping_mul(7).wrapping_add(seen);\n");
+        }
         // index into a shared Vec capture: the first argument where it is an integer, else the key
         let index = if typed { "key" } else { self.names.args[0].as_str() };
         for p in 0..self.sh.caps.len() {
@@ -1449,6 +1692,49 @@ impl<'a> BodyGen<'a> {
                     s += &self.mutate("key ^ 2", &i2);
                     s += &format!("{i2}{};\n", plain(2));
                     s += &self.mutate("key ^ 3", &i2);
+                    s += &format!("{i1}}}\n");
+                }
+            }
+            'G' => {
+                let n = self.sh.nargs;
+                // site j, argument position p: tag 10 j + p + 1, value from the argument's own digest, and a
+                // mutex index that depends on the depth, the site and the position
+                let call = |j: usize| {
+                    self.call_with(
+                        (0..n)
+                            .map(|p| {
+                                let x = format!("v{}.wrapping_mul({}).wrapping_add({})", p + 1, 2 * j + 3, j + p);
+                                let m = format!("depth as usize * 16 + {}", 4 * j + p);
+                                tclass(&self.sh.temps[p]).exprs[j % 2].replace("{k}", &(10 * j + p + 1).to_string()).replace("{x}", &x).replace("{m}", &m)
+                            })
+                            .collect(),
+                    )
+                };
+                s += &self.mutate("acc", &i1);
+                // three levels of activations: the driver's call, its calls, their calls
+                s += &format!("{i1}if depth >= 2 {{\n{i2}{}\n{i1}}}\n", self.ret("acc"));
+                if r {
+                    // a call as the initialiser of a `let`: the temporaries of its arguments are gone after the `;`
+                    s += &format!("{i1}let x = {};\n", call(0));
+                    s += &self.mutate("x ^ super::journal()", &i1);
+                    // a call inside a larger expression
+                    s += &format!("{i1}let y = 1i64.wrapping_add({}).wrapping_mul(3);\n", call(1));
+                    s += &self.mutate("x ^ y", &i1);
+                    s += &format!("{i1}if depth == 0 {{\n");
+                    // two calls in one statement: the temporaries of the first live through the second
+                    s += &format!("{i2}let z = {}.wrapping_sub({});\n", call(2), call(3));
+                    s += &format!("{i2}acc = acc.wrapping_add(z.wrapping_mul(7)) ^ super::journal();\n");
+                    s += &format!("{i1}}}\n");
+                    s += &format!("{i1}x.wrapping_mul(3).wrapping_add(y).wrapping_add(acc)\n");
+                } else {
+                    s += &format!("{i1}{};\n", call(0));
+                    s += &self.mutate("key ^ super::journal()", &i1);
+                    s += &format!("{i1}{};\n", call(1));
+                    s += &self.mutate("key ^ 2", &i1);
+                    s += &format!("{i1}if depth == 0 {{\n");
+                    // two calls in one statement: the temporaries of the first live through the second
+                    s += &format!("{i2}let _pair = ({}, {});\n", call(2), call(3));
+                    s += &self.mutate("key ^ 3 ^ super::journal()", &i2);
                     s += &format!("{i1}}}\n");
                 }
             }
@@ -1948,9 +2234,17 @@ fn shape_module(id: usize, sh: &Shape, with_macro: bool) -> String {
         first = (0..n).map(|k| top(k, 0)).collect();
         second = (0..n).map(|k| top(k, 7)).collect();
     }
+    if sh.body == 'G' {
+        let top = |k: usize, add: usize| tclass(&sh.temps[k]).top.replace("{v}", &format!("(a1 + {})", k + add));
+        first = (0..n).map(|k| top(k, 0)).collect();
+        second = (0..n).map(|k| top(k, 7)).collect();
+    }
+    // the journal of the temporaries family starts empty in every driver run
+    let reset = if sh.body == 'G' { "        super::reset_journal();\n" } else { "" };
 
     // (a) the macro version: the closure is created once and called twice
     s += "\n    pub fn run_macro(a1: i64, a2: i64, a3: u32, a4: bool) -> String {\n";
+    s += reset;
     decl(&mut s, false);
     s += "        let (r1, r2) = {\n";
     s += &lam;
@@ -1960,6 +2254,7 @@ fn shape_module(id: usize, sh: &Shape, with_macro: bool) -> String {
 
     // (b) the hand-written version
     s += "\n    pub fn run_hand(a1: i64, a2: i64, a3: u32, a4: bool) -> String {\n";
+    s += reset;
     decl(&mut s, true);
     s += &format!("        let r1 = {};\n        let r2 = {};\n", call_hand(&first), call_hand(&second));
     s += &show;
@@ -1996,6 +2291,7 @@ pub fn lib_source(shapes: &[(usize, Shape)], with_macro: bool) -> (String, Vec<(
     s += "impl Drop for Level {\n    fn drop(&mut self) {\n        LEVEL.fetch_sub(1, Ordering::Relaxed);\n    }\n}\n";
     s += "/// (guard, number of activations of the same kind below this one)\n";
     s += "pub fn enter() -> (Level, u64) {\n    (Level, LEVEL.fetch_add(1, Ordering::Relaxed))\n}\n";
+    s += JOURNAL_ITEMS;
     s += "pub type Runner = fn(i64, i64, u32, bool) -> String;\n\n";
     let mut line = s.matches('\n').count();
     for (id, sh) in shapes {
@@ -2045,6 +2341,12 @@ pub fn main_source(parts: &[String], thorough: bool) -> String {
         s += &format!("    v.extend({p}::SHAPES.iter().map(|&(id, n, iso, m, h)| (id, n, iso, m, h, {p}::counters as Counters)));\n");
     }
     s += "    v.sort_by_key(|e| e.0);\n    v\n}\n\n";
+    s += "/// activations of the temporaries family that found, on entry, (a guard alive, the RefCell borrowed, a mutex held)\n";
+    s += "fn journal_entries() -> (u64, u64, u64) {\n    let mut t = (0, 0, 0);\n";
+    for p in parts {
+        s += &format!("    let e = {p}::entries();\n    t = (t.0 + e.0, t.1 + e.1, t.2 + e.2);\n");
+    }
+    s += "    t\n}\n\n";
     s += r#"fn run_one(f: Runner, t: Tuple) -> String {
     let (a1, a2, a3, a4) = t;
     match std::panic::catch_unwind(move || f(a1, a2, a3, a4)) {
@@ -2139,6 +2441,8 @@ fn main() {
             sh
         );
     }
+    let e = journal_entries();
+    println!("{{\"journal_entries\":[{},{},{}]}}", e.0, e.1, e.2);
     println!("{{\"done\":true}}");
 }
 "#;
